@@ -4,7 +4,7 @@
    Primitives are premises (prims_ok); the tamper statement additionally uses an ideal-AEAD premise
    (labelled). Partial proof: see notes/C25.md for what is only observed by the runner. *)
 From UV Require Import Base.Common Model.Record Model.Forge Model.KuLock
-  Proofs.RecordP Proofs.RecordRT Proofs.RecordStream Proofs.RecordRead Proofs.TamperP Proofs.KuLockP.
+  Proofs.RecordP Proofs.RecordRT Proofs.RecordStream Proofs.RecordRead Proofs.TamperP Proofs.KuLockP Proofs.KuReadP.
 Open Scope N_scope.
 
 (* one record, every cipher construction (RC4+HMAC, CBC+HMAC with implicit or explicit IV, TLS 1.2 GCM,
@@ -120,6 +120,22 @@ Proof.
   destruct (traffic_key P suite (next_secret P suite (h_secret h))). cbn [h_secret].
   clear IH. induction k as [|j IHj]; [reflexivity|]. simpl. simpl in IHj. rewrite IHj. reflexivity.
 Qed.
+
+(* a KeyUpdate(update_requested) that cannot be answered (local send side broken) still moves the READ half to
+   the next generation, and the failure of the answer is not an error of the Read that processed the request:
+   the peer's following records stay readable (handleKeyUpdate, conn.go:1349-1366) *)
+Theorem C25_key_update_reads_on : forall P (c : conn) (req : bool) (rnd : N -> bytes) (w : bytes) (c' : conn),
+  handle_key_update P c req rnd = Ok (w, c') ->
+  cn_in c' = set_traffic_secret P (cn_in c) (cn_suite c) (next_secret P (cn_suite c) (h_secret (cn_in c))).
+Proof. exact key_update_reads_on. Qed.
+Print Assumptions C25_key_update_reads_on.
+
+Theorem C25_key_update_answer_failure_is_not_fatal : forall P (c : conn) (rnd : N -> bytes) (e : N),
+  is_suite13 (cn_suite c) = true ->
+  send_key_update P (with_in c (set_traffic_secret P (cn_in c) (cn_suite c) (next_secret P (cn_suite c) (h_secret (cn_in c))))
+                             (cn_input c) (cn_hand c) (cn_retry c)) false rnd = Err e ->
+  exists c', handle_key_update P c true rnd = Ok ([], c').
+Proof. exact key_update_answer_failure_is_not_fatal. Qed.
 
 (* concurrency: the write key switch is atomic with sending the KeyUpdate answer. Model/v is the
    interleaving model of c.out (mutex), the goroutine answering in handleKeyUpdate and any number of
